@@ -8,6 +8,8 @@ THEOREMS = ["TLVerif.Props.CodecTL1Extra." + t for t in [
     "tl1_read_total", "readTL1_fuel_mono", "fuel_suffices", "tl1_fuel_irrelevant", "tl1_rest_le", "sanity_guard", "alloc_bound_tl1",
     "loop_not_productive", "loop_never_answers", "linear_fuel_bound_insufficient_at"]]
 SOURCES = ["TLVerif.Codec.TL1", "TLVerif.Codec.TL1Wf", "TLVerif.Codec.TL1Total"]
+# known finding L8: the kernel discards its cycle finder's result, so a schema whose reader recursion consumes no input is accepted
+L8_KEY = "L8:kernel-accepts-non-productive-recursion:internal/pure/kernel.go Compile (FindCycle result discarded)"
 L4A_KEY = "L4:alloc-amplification-zero-wire-size-elements:CheckLengthSanity(…,4)"
 # bytes a reader may allocate per input byte before the check calls it out of proportion (Go struct sizes / wire sizes ≤ ~16 in the corpus)
 ALLOC_PER_BYTE = 256
@@ -16,7 +18,8 @@ ALLOC_SLACK = 1 << 16
 
 def run(c):
     c.lean(MODULES, THEOREMS, sources=SOURCES)
-    schemas = [s for s in cc.corpus(c) if s.sanity] + [cc.Schema("amp", [os.path.join(ROOT, "schemas", "amp.tl")], tl2="", sanity=True)]
+    schemas = [s for s in cc.corpus(c) if s.sanity] + [cc.Schema("amp", [os.path.join(ROOT, "schemas", "amp.tl")], tl2="", sanity=True),
+                                                      cc.Schema("loop", [os.path.join(ROOT, "schemas", "loop.tl")], tl2="", sanity=True)]
     model, hcodec, schemas = cc.prepare(c, schemas)
     rng = c.rng
     for sc in schemas:
@@ -24,9 +27,21 @@ def run(c):
         for idx, r in certs.items():
             if not r["wf"]:
                 c.oracle_fail("cert wf %s %d" % (sc.sid, idx), "exported descriptor is not well-formed (theorem tl1_read_total does not apply)", None)
-            if not r["productive"]:
+            if not r["productive"] and sc.sid == "loop":
+                c.oracle_failures.append({"key": L8_KEY, "what": "L8", "input": "schemas/loop.tl"})
+                c.count("known:L8")
+            elif not r["productive"]:
                 c.oracle_fail("cert productive %s %d" % (sc.sid, idx), "schema accepted by the kernel has a type-reference cycle that consumes no input: generated readers recurse without bound", None)
         pre = [sc.desc_line()]
+        if sc.sid == "loop":
+            if c.thorough:   # replay on the real code: the generated reader overflows the stack on any input (takes ~1 min, 1 GB)
+                li = [i for i, it in sc.items if i["tlname"] == "loopA"][0]
+                out = run_lines(sc.impl, ["codec.x1 loop %d loopA 0 00000000" % li["idx"]], prefix=pre, mem_limit=c.impl_mem_limit, timeout=600)
+                c.evaluations += 1
+                c.extra["L8_replay_on_generated_code"] = out[0]
+                if out[0] not in ("CRASH", "TIMEOUT", "panic"):
+                    c.notes.append("L8 no longer reproduces on generated code: " + out[0])
+            continue
         lines = cc.x1_lines(sc, rng, 20 if c.thorough else 5, big=c.thorough, mutants=4, valid=False)
         for inst, it in sc.items:
             for _ in range(8 if c.thorough else 2):
